@@ -1186,7 +1186,8 @@ def run_bounded_case(ctx, seq, label, lines, term, tbq, want, scoped, spec_per, 
             correspond_bounded(ctx, raw_lines, tbq, res, case, strip_wrapper=(tuple(want) == ('C03',)))
         if not scoped or ctx.model is None or spec_per is None:
             continue
-        refused = [i for i, (due, f) in enumerate(zip(spec_per, res['full'])) if due and f]
+        # (counted from the harness's own view -- a message is due and the queue has no room --, not from what the implementation did)
+        refused = [i for i, (due, r) in enumerate(zip(spec_per, res['room'])) if due and not r]
         rep.count('bounded:messages refused', len(refused))
         rep.count('bounded:assembled messages refused', sum(1 for i in refused if seq[i]['cnt'] > 1))
         rep.count('bounded:wrapped messages refused',
@@ -1462,6 +1463,13 @@ def run_generated(ctx, want, n_random, n_out, frontends=None, deadline=None):
             for key in ('sequences-with-wrapped-assembled-delivery', 'sequences-with-several-slots'):
                 if rep.dist.get(key, 0) < 0.05 * n_seq:
                     rep.internal(f'generator self-check: {key} in only {rep.dist.get(key, 0)} of {n_seq} sequences')
+        if n_seq >= 100 and 'NMEAQueue' in (frontends or FRONTENDS) and ctx.model is not None:
+            # the bounded front-end must really exert backpressure: refused assembled messages, refused wrapped messages, and a
+            # slot used again after its message was refused (the only place where a message kept in its slot would show)
+            for key, least in (('bounded:assembled messages refused', 0.5 * n_seq), ('bounded:wrapped messages refused', 0.1 * n_seq),
+                               ('bounded:runs in which a slot is used again after its message was refused', 5)):
+                if rep.dist.get(key, 0) < least:
+                    rep.internal(f'generator self-check: {key} = {rep.dist.get(key, 0)} (at least {least:.0f} expected for {n_seq} sequences)')
     finally:
         shutil.rmtree(tmpdir, ignore_errors=True)
 
